@@ -115,10 +115,16 @@ FAMILIES = [
     ["/true|false/", '"true"', '"false"', "/[0-9]+/"],
     ["/i[f]/", '"if"', "/[a-z]+/"] if False else ["/i[f]/", '"if"', "/[0-9]+/"],
     ["/ab?/", '"a"', '"ab"'],
+    # a pattern that is a plain word is still a pattern: against another pattern it conflicts, only a LITERAL breaks the tie
+    ["/if/", "/[a-z]+/"],
+    ["/if/", "/[a-z]+/", '"if"'],
+    ["/abc/", "/ab[c]/"],
+    ["/a/", "/[ab]/", "/b/"],
+    ["/00/", "/[0-9]+/", '"0"'],
 ]
 
 RAND_PATTERNS = ["/[a-z]+/", "/[a-c]+/", "/[b-d]+/", "/[0-9]+/", "/[0-9a-f]+/", "/a*b/", "/ab*/", "/(ab)+/", "/a|b|ab/", "/[a-z][a-z0-9]*/",
-                 "/x?y/", "/a*/", "/[0-9]*/", "/(ab)?/", "/if|else/", "/[^a]b/", "/\\d+/", "/\\w+/", "/a{2,3}/", "$ID", "$NUMBER", "$LETTER", "$DIGIT"]
+                 "/x?y/", "/a*/", "/[0-9]*/", "/(ab)?/", "/if|else/", "/if/", "/ab/", "/a/", "/0/", "/abc/", "/[^a]b/", "/\\d+/", "/\\w+/", "/a{2,3}/", "$ID", "$NUMBER", "$LETTER", "$DIGIT"]
 RAND_LITERALS = ['"if"', '"else"', '"ab"', '"a"', '"b"', '"abc"', '"0"', '"00"', '"xy"', '"y"', '"aa"', '"aaa"', '"+"', '"a\\"b"']
 
 
